@@ -279,9 +279,9 @@ def _sh_crash(tier):
 
 HARNESSES = [
     H(rotation, shards=_sh_rot, labels=("end", "rotated", "rotated_twice", "dropped"),
-      timeout={"quick": 60, "thorough": 900}),
+      timeout={"quick": 150, "thorough": 900}),
     H(rotate_crash, shards=_sh_crash, labels=("end", "crashed", "torn", "in_rotate"),
-      timeout={"quick": 60, "thorough": 1200}),
+      timeout={"quick": 150, "thorough": 1200}),
 ]
 
 VECTORS = {
